@@ -140,13 +140,13 @@ def run_cases(ctx, gen_case, oracle, examples, free=6, splits=8,
             wp = {n: sched.write_points(svc, snap, reqs[n]) for n in names}
             ww = write_window_splits(wp, np, names[0], names[1]) + \
                 write_window_splits(wp, np, names[1], names[0])
-            kw = 400 if ctx.thorough else 2 * splits
+            kw = 200 if ctx.thorough else 2 * splits
             if len(ww) > kw:
                 ww = data.draw(st.lists(st.sampled_from(ww), min_size=kw,
                                         max_size=kw, unique_by=id))
             t3 = three_splits(np, names[0], names[1]) + \
                 three_splits(np, names[1], names[0])
-            k3 = 80 if ctx.thorough else splits
+            k3 = 40 if ctx.thorough else splits
             if len(t3) > k3:
                 t3 = data.draw(st.lists(st.sampled_from(t3), min_size=k3,
                                         max_size=k3, unique_by=id))
